@@ -102,6 +102,16 @@ def c03(run):
     for f in (asts, out, out + ".meta"):
         try: os.remove(f)
         except OSError: pass
+    # beyond the property: the reference interpreter's fragment F1 (n-by-n substitution, deletion, metathesis, insertion). The specification is
+    # model-checked (machine = recursive composition, well-formedness, termination measure, tier laws) and its behaviours are replayed on the code;
+    # agreement is reported, divergences are shown as NOTEs - C03 itself speaks about the basic fragment only.
+    res = run_tlc("MC_ScanX", "mc/MC_ScanX.tla", "mc/MC_ScanX%s.cfg" % ("_thorough" if run.tier == "thorough" else ""), env=run.known_env(), timeout=3000, extra=["-coverage", "1"], expect_violation=True)
+    if res.invariant_violated:
+        raise ToolError("the specification ScanX violates its own law %s" % res.invariant_violated)
+    run.add_tlc("MC_ScanX", res, "M: ScanX (beyond C03): the explicit machine ends in ScanX!RunX; WordInv, Measure/Terminates, SubKeeps, MetKeeps, DelShrinks, InsGrows, NoMatchStutter on all words <= %d segments" % (4 if run.tier == "thorough" else 3))
+    res = run_tlc("GEN_ScanX", "gen/GEN_ScanX.tla", "gen/GEN_ScanX_%s.cfg" % run.tier, env=run.known_env(), consumer=[HARNESS, "replay", "C03"], timeout=6000)
+    run.add_informational("GEN_ScanX", res, "S->I beyond C03: rules of fragment F1 (n-by-n substitution, deletion, metathesis, insertion; contexts and exceptions up to two elements a side) x every word "
+                                            "<= %d segments over {a,t,i} in every syllabification, ScanX!RunX replayed on the real interpreter" % (5 if run.tier == "thorough" else 4))
     run.cov["rule"] = ("rules of the basic fragment over inventory {a,t,i}: 8 inputs (IPA, [+syll], [-syll], [], C, two sets) x 5 outputs (IPA or feature matrix) x environments over "
                        "{a, t, [+syll], C, {a,t}, $, #}; strata sampled by rule index % Stride = seed % Stride (quick) or densely (thorough); words: all segment strings in all syllabifications "
                        "without in-syllable runs at any stage; non-trivial = the rule rewrites at least one segment")
